@@ -9,6 +9,7 @@ def nontrivial(h, lines):
 
 def run(ctx):
     cases = S.run_session_check(ctx, "C02")
+    ctx.coverage["submits_after_reconnects_compared"] = S.after_reconnect(ctx, "C02")
     S.session_coverage(ctx, cases, nontrivial, S.GEN_RULE + " Non-trivial: a session with at least one switch and one forwarded share; distinct by op list")
 
 
